@@ -7,10 +7,11 @@ change the set *before* broadcasting the matching SUBSCRIBE/UNSUBSCRIBE message,
 whole peer table; (R13.3) inside the broadcast a failed send to one peer does not end the loop; (R13.4) no
 suspension point lies between taking the snapshot and making the new peer visible to subscribe() (the
 snapshot/registration window) - today's tree has such a window: KNOWN FINDING F13b; (R13.5) the wire follows the
-set: a call that does not change the (idempotent) set sends nothing.
+set: a call that does not change the (idempotent) set sends nothing; (R13.6) the message builder (found by signature)
+writes exactly the type byte (the enum as u8: SUBSCRIBE = 1, UNSUBSCRIBE = 0) followed by the topic bytes.
 Does NOT decide agreement at quiescent points under real interleavings."""
 from ..sym import show, walk_expr
-from ..common import short, trait_impls, coroutine_of
+from ..common import short, trait_impls, coroutine_of, type_holds
 from .. import pathq
 from ..report import Report
 from .c07 import wire_writes
@@ -24,6 +25,7 @@ RULES = {
     "R13.3": "one peer's failed send does not abort the broadcast",
     "R13.4": "no suspension point between snapshot and registration",
     "R13.5": "nothing is broadcast when the set did not change",
+    "R13.6": "the subscription message is one frame: [type as u8] ++ topic bytes",
 }
 
 
@@ -34,12 +36,84 @@ def sub_backend(f):
     return None, None
 
 
+def anchors(f):
+    """The subscription-message builder and the broadcast loop, found by signature: the message type is the local fieldless
+    two-variant enum (discriminants 0/1 = the RFC's first byte) that a function returning ZmqMessage takes; the broadcast is
+    the async fn that takes the same enum. -> dict(enum, builder, builder_ty_arg, builder_topic_arg, bcast, bcast_ty_arg, bcast_topic_arg)"""
+    def enum_of(ty):
+        for p_, a in f.adts.items():
+            if (p_ == ty or p_.endswith("::" + ty)) and a["kind"] == "Enum" and len(a["variants"]) == 2 and all(not v["fields"] for v in a["variants"]):
+                ds = sorted((v["discr"] if v["discr"] is not None else i) for i, v in enumerate(a["variants"]))
+                if ds == [0, 1]:
+                    return p_
+        return None
+    out = {}
+    for path, s in f.fns.items():
+        if "::test" in path:
+            continue
+        for i, ty in enumerate(s.get("inputs", [])):
+            en = enum_of(ty)
+            if en is None:
+                continue
+            topic = next((j for j, t2 in enumerate(s["inputs"]) if t2 in ("&str", "&std::string::String", "std::string::String", "&[u8]")), None)
+            if "ZmqMessage" in s.get("output", "") and not s.get("is_async"):
+                out.update(enum=en, builder=path, builder_ty_arg=i, builder_topic_arg=topic)
+            elif s.get("is_async"):
+                out.update(bcast=path, bcast_ty_arg=i, bcast_topic_arg=topic)
+    return out
+
+
+def msg_type_value(f, e):
+    """1 (SUBSCRIBE) / 0 (UNSUBSCRIBE): the discriminant of the message-type variant an expression names"""
+    while e[0] == "ref":
+        e = e[1]
+    if e[0] == "agg" and e[1] == "adt" and e[2] in f.adts:
+        for i, v in enumerate(f.adts[e[2]]["variants"]):
+            if v["name"] == e[3]:
+                return v["discr"] if v["discr"] is not None else i
+    return None
+
+
+def check_builder(f, rep, A):
+    """R13.6: the message a peer receives is one frame: the type byte (enum as u8) followed by the topic bytes"""
+    b = f.body(A["builder"])
+    n = 0
+    for p in pathq.paths(f, b):
+        if p.end != "return":
+            continue
+        n += 1
+        ty_arg = ("arg", A["builder_ty_arg"] + 1)
+        topic_arg = ("arg", A["builder_topic_arg"] + 1) if A["builder_topic_arg"] is not None else None
+        writes = [(i, ev) for i, ev in pathq.calls(p) if short(ev.name) in ("put_u8", "put_slice", "extend_from_slice", "put", "push", "extend", "put_u16", "put_u32", "put_u64", "put_bytes", "resize")
+                  and ("BytesMut" in ev.name or "BufMut" in ev.name or "Vec" in ev.name)]
+        ok = len(writes) == 2
+        if ok:
+            (i0, w0), (i1, w1) = writes
+            first = short(w0.name) in ("put_u8", "push") and any(y == ty_arg for y in walk_expr(w0.args[1])) and \
+                (w0.args[1][0] == "cast" or w0.args[1][0] == "discr")
+            rest = short(w1.name) in ("put_slice", "extend_from_slice", "put", "extend") and topic_arg is not None and any(y == topic_arg for y in walk_expr(w1.args[1]))
+            ok = first and rest
+        rep.check(ok, "R13.6", "R13.6|builder|type-byte-then-topic", "the subscription message is [type as u8] ++ topic bytes, written once each in that order (writes: %s)" % [short(w.name) for _, w in writes], b.loc())
+    rep.floor("R13.6", "returning paths of the message builder", n, 1)
+
+
+_F = [None]
+
+
 def is_subs_lock(ev):
-    return ev.kind == "call" and short(ev.name) == "lock" and ev.args and any(isinstance(x, tuple) and x and x[0] == "field" and "sub" in str(x[2]) and "HashSet" in str(x[3]) or
-                                                                                (isinstance(x, tuple) and x and x[0] == "field" and "HashSet" in str(x[3])) for x in walk_expr(ev.args[0]))
+    """lock() of the mutex that guards the subscription set: a Mutex field whose payload is, or wraps, a HashSet"""
+    return ev.kind == "call" and short(ev.name) == "lock" and ev.args and any(
+        isinstance(x, tuple) and x and x[0] == "field" and "Mutex<" in str(x[3]) and type_holds(_F[0], str(x[3]), "HashSet") for x in walk_expr(ev.args[0]))
 
 
 def run(ctx, f, rep):
+    _F[0] = f
+    A = anchors(f)
+    have = all(k in A for k in ("enum", "builder", "bcast"))
+    rep.check(have, "R13.2", "R13.2|anchors", "subscription message type, builder and broadcast loop found by signature: %s" % {k: v for k, v in A.items() if isinstance(v, str)})
+    if not have:
+        return
+    check_builder(f, rep, A)
     ty, co = sub_backend(f)
     if co is None:
         rep.bad("R13.1", "R13.1|anchor", "SUB backend peer_connected not found (anchor-missing)")
@@ -83,13 +157,15 @@ def run(ctx, f, rep):
                   "no suspension point between reading the subscription set and registering the new peer (%d registering paths await the announcement sends in between: "
                   "a subscribe() running in that window updates the set and walks a table that does not contain the new peer)" % window, co.loc())
         # snapshot closure builds SUBSCRIBE messages
-        kids = [k for k in f.children(co) if k.kind == "Closure" and not k.j.get("coroutine_kind")]
+        kids = [k for k in pathq.scope(f, co) if k.kind == "Closure" and not k.j.get("coroutine_kind")]
         okk = False
         for k in kids:
             for p in pathq.paths(f, k):
-                for i, ev in pathq.calls(p, "create_subs_message"):
-                    a = ev.args[1] if len(ev.args) > 1 else None
-                    if a is not None and "SUBSCRIBE" in show(a) and "UNSUBSCRIBE" not in show(a):
+                for i, ev in pathq.calls(p):
+                    if ev.name != A["builder"]:
+                        continue
+                    a = ev.args[A["builder_ty_arg"]] if len(ev.args) > A["builder_ty_arg"] else None
+                    if a is not None and msg_type_value(f, a) == 1:
                         okk = True
         rep.check(okk, "R13.1", "R13.1|snapshot-message-type", "the re-announcement messages are SUBSCRIBE messages", co.loc())
         # no unwrap on a send
@@ -103,7 +179,7 @@ def run(ctx, f, rep):
             if "SubSocketBackend" in o.key and "overwrite" in o.key:
                 (rep.ok if o.ok else rep.bad)("R13.1", o.key.replace("R04.4", "R13.1", 1), o.what, o.loc, o.detail)
     # ---- subscribe / unsubscribe
-    for fn_name, setop, want_type in (("subscribe", "insert", "SUBSCRIBE"), ("unsubscribe", "remove", "UNSUBSCRIBE")):
+    for fn_name, setop, want_type in (("subscribe", "insert", 1), ("unsubscribe", "remove", 0)):
         bs = [b for b in f.bodies if b.path.endswith("sub::SubSocket::%s::{closure#0}" % fn_name)]
         rep.floor("R13.2", "SubSocket::%s" % fn_name, len(bs), 1)
         for b in bs:
@@ -112,18 +188,19 @@ def run(ctx, f, rep):
                 if p.end != "return":
                     continue
                 ops = [(i, ev) for i, ev in enumerate(p.events) if ev.kind == "call" and short(ev.name) in ("insert", "remove", "replace", "take") and "HashSet" in ev.name]
-                bc = [(i, ev) for i, ev in pathq.calls(p, "process_subs")]
+                bc = [(i, ev) for i, ev in pathq.calls(p) if ev.name == A["bcast"]]
                 for i, ev in bc:
                     nb += 1
                     before = [o for o in ops if o[0] < i and short(o[1].name) == setop]
                     rep.check(len(before) == 1 and len(ops) == 1, "R13.2", "R13.2|%s|set-updated-first" % fn_name,
                               "%s changes the set (%s) before it broadcasts, and only once (set operations before the broadcast: %s, all: %s)" % (
                                   fn_name, setop, [short(o[1].name) for o in before], [short(o[1].name) for o in ops]), b.loc(ev.bb))
-                    mt = ev.args[2] if len(ev.args) > 2 else None
+                    mt = ev.args[A["bcast_ty_arg"]] if len(ev.args) > A["bcast_ty_arg"] else None
                     txt = show(mt) if mt is not None else ""
-                    is_type = (want_type in txt) and (want_type == "UNSUBSCRIBE" or "UNSUBSCRIBE" not in txt)
-                    rep.check(is_type, "R13.2", "R13.2|%s|message-type" % fn_name, "%s broadcasts a %s message (%s)" % (fn_name, want_type, txt[:60]), b.loc(ev.bb))
-                    topic_same = before and len(ev.args) > 1 and any(x == ("arg", 1) or (isinstance(x, tuple) and x and x[0] == "field" and x[1] == ("arg", 1)) for x in walk_expr(ev.args[1]))
+                    is_type = mt is not None and msg_type_value(f, mt) == want_type
+                    rep.check(is_type, "R13.2", "R13.2|%s|message-type" % fn_name, "%s broadcasts a message of type byte %d (%s)" % (fn_name, want_type, txt[:60]), b.loc(ev.bb))
+                    ta = A.get("bcast_topic_arg")
+                    topic_same = before and ta is not None and len(ev.args) > ta and any(x == ("arg", 1) or (isinstance(x, tuple) and x and x[0] == "field" and x[1] == ("arg", 1)) for x in walk_expr(ev.args[ta]))
                     rep.check(bool(topic_same), "R13.2", "R13.2|%s|same-topic" % fn_name, "%s broadcasts the topic it was called with" % fn_name, b.loc(ev.bb))
                     # R13.5: only when the set changed
                     if before:
@@ -142,8 +219,8 @@ def run(ctx, f, rep):
                     pass
             rep.floor("R13.2", "%s: broadcast events on paths" % fn_name, nb, 1)
     # ---- process_subs
-    ps = [b for b in f.bodies if b.path.endswith("sub::SubSocket::process_subs::{closure#0}")]
-    rep.floor("R13.3", "broadcast loop (process_subs)", len(ps), 1)
+    ps = [b for b in f.bodies if b.j.get("coroutine_kind") and b.j.get("parent") == A["bcast"]]
+    rep.floor("R13.3", "broadcast loop (the async fn taking the message type)", len(ps), 1)
     for b in ps:
         nfail = nwalk = 0
         for p in pathq.paths(f, b, max_visits=2):
@@ -154,7 +231,7 @@ def run(ctx, f, rep):
                 sink = ev.args[0]
                 on_entry = pathq.mentions_call(sink, lambda y: short(y[1]) in ("begin_async", "next_async") and not y[1].endswith("}")) is not None
                 item = ev.args[1]
-                is_msg = item[0] == "agg" and item[3] == "Message" and pathq.mentions_call(item, lambda y: short(y[1]) == "create_subs_message") is not None
+                is_msg = item[0] == "agg" and item[3] == "Message" and pathq.mentions_call(item, lambda y: y[1] == A["builder"]) is not None
                 rep.check(on_entry and is_msg, "R13.2", "R13.2|broadcast|to-each-entry", "the broadcast sends the subscription message to the entry the walk is at", b.loc(ev.bb))
                 # outcome decided Err?
                 res = None
